@@ -22,7 +22,8 @@ def check(run, focus=FOCUS, modules=MODULES, suffix=SUFFIX):
     run.coverage["trusted_base"] += ["lib/rustexpr.py: translator from the generated Rust expression to bit-vector terms (validated on every run against rustc's evaluation of the same expression)",
                                      "Model/A64Enc.lean: transcription of the literal (compile-time) arms, validated against the plugin on every run",
                                      "Model/A64Imm.lean for the special immediates (C14)", "harnesses plug and dyn; rustc's evaluation of the generated code is what is observed"]
-    run.assumptions += ["aarch64 immediate and offset slots only; aarch64/riscv dynamic register slots and riscv immediates are compared literal-vs-run-time by execution (no theorem yet)",
+    run.assumptions += ["theorems: aarch64 immediate and offset slots, x64 memory operands (C13); x86/x64 dynamic registers in every register slot of every encoding class are compared "
+                        "literal-vs-run-time by execution and disassembly (lib/x64dyn.py), aarch64/riscv dynamic register slots and riscv immediates not yet",
                         "float literals enter as the f32 they round to"]
     ok, log = common.build_harness("plug")
     if not ok:
@@ -42,6 +43,11 @@ def check(run, focus=FOCUS, modules=MODULES, suffix=SUFFIX):
             run.violation("broken-obligation", {"kind": "lean-build"}, run.broken_build["first_error"], run.broken_build, found_input=False)
             return
     stats = enc.sweep(run, gen, focus, thorough)
+    if focus == "C03":
+        import x64dyn
+        stats["x64_dynamic_registers"] = x64dyn.sweep(run, thorough)
+    import regdyn
+    stats["a64_rv_dynamic_registers"] = regdyn.sweep(run, focus, thorough)
     run.coverage["evaluations"] = stats["literal"] + stats["runtime"]
     run.coverage["distinct_nontrivial"] = stats["literal_accepted"] + stats["runtime_accepted"]
     run.coverage["rule"] = ("every distinct immediate command group of the aarch64 table (one representative form each) x boundary values of the documented set, values just outside, "
